@@ -11,7 +11,6 @@ import (
 	"github.com/avos-io/goat/gen/testproto"
 	"google.golang.org/grpc"
 	"google.golang.org/grpc/metadata"
-	"google.golang.org/grpc/stats"
 )
 
 type zzTraceKey struct{ i int }
@@ -26,90 +25,6 @@ func zzDecodeBody(b []byte) int32 {
 		return 0
 	}
 	return int32(uint32(b[1]) | uint32(b[2])<<8 | uint32(b[3])<<16 | uint32(b[4])<<24)
-}
-
-// zzRecStats records the stats events per RPC tag.
-type zzRecStats struct {
-	mu       vfMutex
-	ntags    int
-	events   map[int][]string // tag -> event kinds
-	endErr   map[int]bool     // tag -> End.Error != nil
-	untagged int
-	conn     []string
-}
-
-type zzTagKey struct{ h *zzRecStats }
-
-func newZZRecStats() *zzRecStats {
-	return &zzRecStats{events: map[int][]string{}, endErr: map[int]bool{}}
-}
-
-func (z *zzRecStats) TagRPC(ctx context.Context, _ *stats.RPCTagInfo) context.Context {
-	z.mu.vfLock()
-	defer z.mu.vfUnlock()
-	z.ntags++
-	return context.WithValue(ctx, zzTagKey{z}, z.ntags)
-}
-
-func (z *zzRecStats) HandleRPC(ctx context.Context, s stats.RPCStats) {
-	z.mu.vfLock()
-	defer z.mu.vfUnlock()
-	tag, ok := ctx.Value(zzTagKey{z}).(int)
-	if !ok {
-		z.untagged++
-		return
-	}
-	kind := "other"
-	switch e := s.(type) {
-	case *stats.Begin:
-		kind = "begin"
-	case *stats.End:
-		kind = "end"
-		z.endErr[tag] = e.Error != nil
-	}
-	z.events[tag] = append(z.events[tag], kind)
-}
-
-func (z *zzRecStats) TagConn(ctx context.Context, _ *stats.ConnTagInfo) context.Context { return ctx }
-func (z *zzRecStats) HandleConn(ctx context.Context, s stats.ConnStats) {
-	z.mu.vfLock()
-	defer z.mu.vfUnlock()
-	switch s.(type) {
-	case *stats.ConnBegin:
-		z.conn = append(z.conn, "begin")
-	case *stats.ConnEnd:
-		z.conn = append(z.conn, "end")
-	}
-}
-
-// check: for every tag: begin first, exactly one begin, exactly one end.
-func (z *zzRecStats) wellPaired(wantRPCs int, wantFail []bool) {
-	vfAssert(z.untagged == 0, "every-event-carries-the-TagRPC-context")
-	vfAssert(z.ntags == wantRPCs, "one-tag-per-RPC")
-	for tag := 1; tag <= z.ntags; tag++ {
-		ev := z.events[tag]
-		vfAssert(len(ev) >= 2, "begin-and-end-present")
-		if len(ev) < 2 {
-			continue
-		}
-		vfAssert(ev[0] == "begin", "begin-is-the-first-event")
-		nb, ne := 0, 0
-		for _, k := range ev {
-			if k == "begin" {
-				nb++
-			}
-			if k == "end" {
-				ne++
-			}
-		}
-		vfAssert(nb == 1, "exactly-one-begin")
-		vfAssert(ne == 1, "exactly-one-end")
-		// (that End is the LAST event is not part of the property as stated: a payload event of a send
-		// that races with the end of the stream may be reported after it)
-		if wantFail != nil && tag-1 < len(wantFail) {
-			vfAssert(z.endErr[tag] == wantFail[tag-1], "End.Error-nil-exactly-when-the-RPC-succeeded")
-		}
-	}
 }
 
 // H_C20_stats_e2e: client and server each with H recording stats handlers; one RPC of kind
@@ -221,7 +136,8 @@ func H_C20_stats_e2e() {
 
 // H_C20_stats_failures: client-side stats pairing for RPCs that fail before or at the
 // transport: outcome 0 = stream whose opening write fails, 1 = unary call whose request
-// write fails, 2 = stream opened, then the connection's read side fails.
+// write fails, 2 = stream opened, then the connection's read side fails, 3 = cancel with an
+// undelivered response, 4/5 = stream opened, then reset by the peer.
 func H_C20_stats_failures() {
 	H := vfParam("H", 1)
 	outcome := vfParam("outcome", 0)
@@ -277,6 +193,19 @@ func H_C20_stats_failures() {
 	}()
 	if outcome == 2 {
 		go func() { conn.rerr <- errors.New("connection reset") }()
+	}
+	if outcome == 4 || outcome == 5 {
+		// the peer resets the stream the way goat's own server does (reset + empty trailer, no status),
+		// outcome 5: with another reset type string
+		typ := "RST_STREAM"
+		if outcome == 5 {
+			typ = "CANCEL"
+		}
+		conn.wch = make(chan *Rpc, 4)
+		go func() {
+			<-conn.wch // the open is on the wire
+			conn.in <- &Rpc{Id: 1, Header: zzRespHdr(), Reset_: &goatorepo.Reset{Type: typ}, Trailer: &goatorepo.Trailer{}}
+		}()
 	}
 	vfAtQuiescence(func() {
 		vfAssert(done, "call-returns")
